@@ -294,10 +294,12 @@ def vcf_check(store, st):
     recs = []
     for j in range(nv):
         c = chroms[(j * len(chroms)) // nv]
-        recs.append([c, 0, "snp%d" % j if R.random() < 0.8 else "rs%d_%s" % (j, R.choice("ab")), R.choice("ACGT")])
+        # single-base substitutions, insertions, and records whose REF spans several bases (deletions, multi-base substitutions)
+        ref = R.choice("ACGT") if R.random() < 0.65 else "".join(R.choice("ACGT") for _ in range(R.randint(2, 5)))
+        recs.append([c, 0, "snp%d" % j if R.random() < 0.8 else "rs%d_%s" % (j, R.choice("ab")), ref])
     pos = {}
     for r in recs:
-        pos[r[0]] = pos.get(r[0], 0) + R.randint(1, 500)
+        pos[r[0]] = pos.get(r[0], 0) + R.randint(6, 500)
         r[1] = pos[r[0]]
     calls = [[(R.randint(0, 1), R.randint(0, 1)) for _ in range(nt)] for _ in range(nv)]
     lines = ["##fileformat=VCFv4.2"]
@@ -306,7 +308,10 @@ def vcf_check(store, st):
     lines.append('##FORMAT=<ID=GT,Number=1,Type=String,Description="Genotype">')
     lines.append("#CHROM\tPOS\tID\tREF\tALT\tQUAL\tFILTER\tINFO\tFORMAT\t" + "\t".join(samples))
     for r, cs in zip(recs, calls):
-        alt = "A" if r[3] != "A" else "C"
+        if len(r[3]) == 1:
+            alt = ("A" if r[3] != "A" else "C") if R.random() < 0.7 else r[3] + "".join(R.choice("ACGT") for _ in range(R.randint(1, 3)))
+        else:
+            alt = r[3][0] if R.random() < 0.6 else "".join(("A" if b != "A" else "C") for b in r[3])
         lines.append("%d\t%d\t%s\t%s\t%s\t.\tPASS\t.\tGT\t%s" % (r[0], r[1], r[2], r[3], alt, "\t".join("%d|%d" % c for c in cs)))
     path = store.path("in%d" % st["seed"], ".vcf")
     with open(path, "w") as f:
